@@ -160,7 +160,7 @@ Proof.
   - rewrite rt_sumZ_cons in H. inversion Hf; subst. cbn [intervals].
     destruct (Z_lt_dec x (s + c)).
     + exists (s, s + c). split; [left; reflexivity|]. unfold in_slice. cbn [fst snd]. lia.
-    + destruct (IH (s + c) x) as [se [H1 H2]]; auto; [lia|]. exists se. split; [right|]; auto.
+    + destruct (IH (s + c) x) as [se [Hse1 Hse2]]; auto; [lia|]. exists se. split; [right|]; auto.
 Qed.
 
 Lemma rt_cover chunks : forall p, Forall (Forall (fun c => 0 <= c)) chunks ->
@@ -171,10 +171,10 @@ Proof.
   - cbn [chunks_shape map] in H. fold (chunks_shape t) in H. rewrite rt_enumerate_cons in H.
     apply rt_in_cons_cart in H. destruct H as [x [q [-> [Hx Hq]]]].
     inversion Hf; subst. destruct (IH q) as [b [Hb Hc]]; auto.
-    apply rt_zrange_In in Hx. destruct (rt_cover_axis cs 0 x) as [se [H1 H2]]; auto.
+    apply rt_zrange_In in Hx. destruct (rt_cover_axis cs 0 x) as [se [Hse1 Hse2]]; auto.
     exists (se :: b). split.
     + rewrite rt_blocks_cons. apply rt_in_cons_cart. exists se, b. auto.
-    + cbn [contains]. rewrite H2, Hc. reflexivity.
+    + cbn [contains]. rewrite Hse2, Hc. reflexivity.
 Qed.
 
 Lemma rt_chunk_at_extract {A} (d : A) (f : list Z -> A) b p :
